@@ -38,3 +38,40 @@ def mst_colour_keys(repo: Repo, rep: Report, rule: str) -> None:
                   "which pairs the spanning tree joins depends on placement; an unguarded store under such a key can overwrite the colour recorded for a real producer->consumer edge of the same signal, "
                   "so the consumer's operand reads the wrong network", mst.loc(n))
     rep.floor(rule, "colour stores under spanning-tree keys", n_keys, 2)
+
+
+def identifier_resolvers(repo: Repo, rep: Report, rule: str) -> None:
+    """Every lowering branch that resolves an IdentifierExpr by name through signal_refs / the symbol table must consult param_values first
+    (as lower_identifier and _resolve_constant_symbol do): inside an inlined call a parameter shadows a same-named outer name."""
+    n = 0
+    for f in repo.all_funcs():
+        if ".lowering." not in f.module.name + ".":
+            continue
+        for node in walk_local(f.node):
+            if isinstance(node, ast.If) and "isinstance" in norm(node.test) and "IdentifierExpr" in norm(node.test):
+                reads = []
+                for s in node.body:
+                    for x in ast.walk(s):
+                        if isinstance(x, ast.Attribute) and x.attr in ("signal_refs", "param_values"):
+                            reads.append((x.lineno, x.col_offset, x.attr))
+                        if isinstance(x, ast.Call) and call_name(x) == "lookup":
+                            reads.append((x.lineno, x.col_offset, "lookup"))
+                if not any(k in ("signal_refs", "lookup") for _, _, k in reads):
+                    continue
+                n += 1
+                reads.sort()
+                first = reads[0][2]
+                rep.check(first == "param_values", rule, f"{f.short}: an identifier is resolved through the parameter environment first",
+                          "param_values consulted first" if first == "param_values" else
+                          f"the branch `{norm(node.test)[:60]}` resolves the name via {first} without consulting param_values: inside an inlined function a parameter that shadows a global is resolved to the global's value",
+                          f.loc(node))
+    for name in ("ExpressionLowerer.lower_identifier", "ExpressionLowerer._resolve_constant_symbol"):
+        f = repo.func(name)
+        order = []
+        for x in walk_local(f.node):
+            if isinstance(x, ast.Compare) and isinstance(x.ops[0], ast.In) and isinstance(x.comparators[0], ast.Attribute) and x.comparators[0].attr in ("param_values", "signal_refs"):
+                order.append((x.lineno, x.comparators[0].attr))
+        order.sort()
+        n += 1
+        rep.check(bool(order) and order[0][1] == "param_values", rule, f"{f.short}: parameters are looked up before outer names", str([a for _, a in order]), f.loc())
+    rep.floor(rule, "identifier resolvers", n, 2)
